@@ -296,7 +296,7 @@ struct checker {
             const model::attr& a = decl::attrs[Mset[pos]];
             const outcome o = read_outcome(s, k, a, 0, vmax);
             if (!o.ok) { viol(o.security ? "C05" : "C06", o.security ? "rbt:protected_value_returned_unencrypted" : "rbt:unreadable_value_returned", k, req, rsp, "handle " + std::to_string(h)); return; }
-            if (o.data.size() != esz - 2 || std::memcmp(o.data.data(), e + 2, esz - 2) != 0) { viol("C06", "rbt:wrong_value", k, req, rsp, "handle " + std::to_string(h) + " expected " + verif::hex(o.data)); return; }
+            if (o.data.size() != esz - 2 || (esz > 2 && std::memcmp(o.data.data(), e + 2, esz - 2) != 0)) { viol("C06", "rbt:wrong_value", k, req, rsp, "handle " + std::to_string(h) + " expected " + verif::hex(o.data)); return; }
             ++pos;
         }
         nontrivial("C02", k, req, rsp, n * 4 + esz);
